@@ -135,6 +135,7 @@ func runC03(c *core.Ctx) {
 	c03R2(c, "C03.R2")
 	c03R3(c, "C03.R3")
 	c03R4(c, "C03.R4")
+	c03R5(c)
 }
 
 // authorizerImpls returns the Authorize methods of production implementers of service.Authorizer.
@@ -568,4 +569,95 @@ func c03R4(c *core.Ctx, rule string) {
 		}
 	}
 	// the one tabled exception: selfPublish uses the license contract (internal stats channel) and does not authorise
+}
+
+// c03R5: the writer (SetTarget) and the reader (ValidateChannel) of a key's target hash must
+// normalise the channel string the same way before hashing it.
+func c03R5(c *core.Ctx) {
+	rule := "C03.R5"
+	c.Rule(rule, "target normalisation agreement between Key.SetTarget (writer of the target hash) and Key.ValidateChannel (reader): both split on \"/\", drop a trailing \"#\" element (reslice to len-1 exactly when the last element equals \"#\"), join with \"/\" and hash with hash.OfString; SetTarget marks literal levels in the bit path with 1<<(22-idx) and ValidateChannel tests the same bit", 8)
+	for _, name := range []string{"SetTarget", "ValidateChannel"} {
+		f := fn(c, rule, "internal/security", "Key", name)
+		if f == nil {
+			continue
+		}
+		fname := fnName(f)
+		isSep := func(v ssa.Value, want string) bool {
+			k, ok := v.(*ssa.Const)
+			return ok && k.Value != nil && k.Value.ExactString() == want
+		}
+		splits := eng.Calls(f, false, "strings.Split")
+		okSplit := len(splits) == 1 && isSep(eng.CallArgs(splits[0].Common())[1], `"/"`)
+		c.Check(okSplit, rule, fname+":split on /", f.Pos(), "levels are the /-separated parts", name+" does not split the channel on \"/\"")
+		joins := eng.Calls(f, false, "strings.Join")
+		okJoin := len(joins) == 1 && isSep(eng.CallArgs(joins[0].Common())[1], `"/"`)
+		hashes := eng.Calls(f, false, idHashOfString)
+		okHash := len(hashes) == 1 && len(joins) == 1 && eng.CallArgs(hashes[0].Common())[0] == joins[0].Value()
+		c.Check(okJoin && okHash, rule, fname+":hash of the re-joined levels", f.Pos(), "the hash is hash.OfString(strings.Join(parts, \"/\"))", name+" does not hash strings.Join(parts, \"/\") with hash.OfString")
+		// trailing "#" dropped
+		var cmp *ssa.BinOp
+		eng.Instrs(f, func(in ssa.Instruction) {
+			bo, ok := in.(*ssa.BinOp)
+			if !ok || bo.Op != token.EQL {
+				return
+			}
+			for _, pr := range [][2]ssa.Value{{bo.X, bo.Y}, {bo.Y, bo.X}} {
+				if !isSep(pr[1], `"#"`) {
+					continue
+				}
+				u, ok := pr[0].(*ssa.UnOp)
+				if !ok {
+					continue
+				}
+				ia, ok := u.X.(*ssa.IndexAddr)
+				if !ok {
+					continue
+				}
+				// index = len(parts) - 1
+				if ib, ok := ia.Index.(*ssa.BinOp); ok && ib.Op == token.SUB {
+					if k, isC := eng.ConstInt(ib.Y); isC && k == 1 {
+						if l, isL := eng.LenOf(ib.X); isL && l == ia.X {
+							cmp = bo
+						}
+					}
+				}
+			}
+		})
+		okDrop := false
+		if cmp != nil {
+			isHash := eng.ValuePred("last part is #", cmp, true)
+			eng.Instrs(f, func(in ssa.Instruction) {
+				sl, ok := in.(*ssa.Slice)
+				if !ok || sl.High == nil {
+					return
+				}
+				if hb, ok := sl.High.(*ssa.BinOp); ok && hb.Op == token.SUB {
+					if k, isC := eng.ConstInt(hb.Y); isC && k == 1 {
+						if l, isL := eng.LenOf(hb.X); isL && l == sl.X {
+							g := eng.Guarded(sl, isHash)
+							ok2, _ := eng.MustFollow(f, []eng.Pred{isHash}, func(i ssa.Instruction) bool { return i == ssa.Instruction(sl) })
+							if g.Guarded && g.Edges > 0 && ok2 {
+								okDrop = true
+							}
+						}
+					}
+				}
+			})
+		}
+		c.Check(okDrop, rule, fname+":trailing # is not a level", f.Pos(), "a trailing \"#\" element is removed before depth and hash are computed, exactly when present", name+" does not drop a trailing \"#\" element exactly when the last element equals \"#\": the writer and the reader of the target hash would normalise differently (a `#`-terminated request is then counted and hashed as a level)")
+		// bit path: shift by 22-idx
+		okBit := false
+		eng.Instrs(f, func(in ssa.Instruction) {
+			bo, ok := in.(*ssa.BinOp)
+			if !ok || (bo.Op != token.SHL && bo.Op != token.SHR) {
+				return
+			}
+			if sb, ok := eng.StripConv(bo.Y).(*ssa.BinOp); ok && sb.Op == token.SUB {
+				if k, isC := eng.ConstInt(sb.X); isC && k == 22 {
+					okBit = true
+				}
+			}
+		})
+		c.Check(okBit, rule, fname+":level bit 22-idx", f.Pos(), "level idx is bit 22-idx of the path", name+" does not address level idx as bit 22-idx of the bit path")
+	}
 }
